@@ -1,4 +1,5 @@
 #![allow(dead_code)]
+mod c13;
 mod c15;
 mod coq;
 mod obs;
@@ -49,6 +50,7 @@ fn main() {
     }));
     let meta = match prop {
         "C15" => c15::generate(tier, seed, &out, nshards, replay.as_deref()),
+        "C13" => c13::generate(tier, seed, &out, nshards, replay.as_deref()),
         "TG" | "C01" | "C02" | "C05" | "C06" | "C07" | "C08" | "C09" | "C10" | "C17" | "C18" => {
             tg::generate(prop, tier, seed, &out, nshards, replay.as_deref())
         }
